@@ -246,6 +246,10 @@ func (c *c09Conc) runRound(p *c09Plan) (ops []c09COp) {
 				}
 				advTimes[ai][1] = c.now()
 				c.seq.Add(1) // even: done
+				if advProblems[ai] == "no-rollover" && a.ViaLoop {
+					c09RealLoopStuck.Store(true)
+					break // do not spend another watchdog on the same loop
+				}
 				if p.paced && p.updSleep == 0 {
 					runtime.Gosched()
 				}
@@ -295,6 +299,9 @@ func (c *c09Conc) runRound(p *c09Plan) (ops []c09COp) {
 	}
 
 	for ai, a := range p.advances {
+		if advHours[ai] == 0 {
+			break // not reached (the real loop did not respond before)
+		}
 		c.hoursTable = append(c.hoursTable, advHours[ai])
 		switch advProblem := advProblems[ai]; {
 		case advProblem == "no-rollover" && a.ViaLoop:
@@ -345,6 +352,12 @@ func (c *c09Conc) runRound(p *c09Plan) (ops []c09COp) {
 	}
 	return ops
 }
+
+// c09RealLoopStuck is set once the real loop has not rotated the unit within
+// a real-time watchdog; the remaining real-loop histories are then skipped
+// (the run is inconclusive as far as they are concerned; the "loop" part
+// decides the loop's responsiveness on virtual time).
+var c09RealLoopStuck atomic.Bool
 
 // c09StallAfter is the watchdog of one round (rounds take milliseconds, the
 // real-loop rounds two to three seconds).
@@ -809,6 +822,9 @@ func TestVerifC09Concurrent(t *testing.T) {
 		case i%5 == 4:
 			shape = "free"
 		}
+		if shape == "loop" && c09RealLoopStuck.Load() {
+			continue
+		}
 		t0 := time.Now()
 		c09ConcHistory(rep, rng, dir, i, shape)
 		fmt.Fprintf(os.Stderr, "c09: history %d shape %s took %s\n", i, shape, time.Since(t0).Round(time.Millisecond))
@@ -817,7 +833,7 @@ func TestVerifC09Concurrent(t *testing.T) {
 		"reads_overlapping_updates", "porcupine_linearizable", "restarts_after_traffic",
 		"rollovers_overlapping_2_or_more_reads_and_an_update"}
 	if c09Prop() == "C09" {
-		for i, k := 0, verifkit.Pick(3, 20); i < k && !rep.Violated(); i++ {
+		for i, k := 0, verifkit.Pick(3, 20); i < k && !rep.Violated() && !c09RealLoopStuck.Load(); i++ {
 			c09ResetLoopHistory(rep, rng, dir, i)
 		}
 		need = append(need, "reset_rounds_checked_after_real_loop_rotation", "resets_during_traffic")
@@ -1063,6 +1079,7 @@ func c09ResetLoopHistory(rep *verifkit.Report, rng *rand.Rand, dir string, idx i
 			// Slow, not dead (or cannot tell): nothing can be concluded.
 			rep.Unspec("real-loop-did-not-rotate-within-5s-but-is-alive")
 			rep.Eval(false, "")
+			c09RealLoopStuck.Store(true)
 			return
 		}
 		loopGone = true
